@@ -184,7 +184,7 @@ impl LogLens {
     fn start_inc(&self, run: &mut Run) -> Result<(), String> {
         let config = srv::build_config(&run.dir, &run.scn.cfg, &run.key);
         let inc = srv::start(config, &run.scn.cfg, false)?;
-        let client = self.driver.block_on(srv::tcp_root(inc.tcp))?;
+        let client = inc.rt.block_on(srv::tcp_root(inc.tcp))?;
         run.inc = Some(inc);
         run.client = Some(client);
         Ok(())
@@ -194,7 +194,7 @@ impl LogLens {
         let scn = run.scn;
         self.start_inc(run)?;
         let expiry = expiry_of(scn.expiry);
-        self.driver.block_on(async {
+        run.inc.as_ref().unwrap().rt.block_on(async {
             let c = run.client.as_ref().unwrap();
             c.create_stream(STREAM, Some(1)).await.map_err(|e| e.to_string())?;
             c.create_topic(
@@ -265,7 +265,7 @@ impl LogLens {
     fn reconnect_if_closed(&self, run: &mut Run, res: &str) {
         if res == "closed" {
             if let Some(inc) = run.inc.as_ref() {
-                if let Ok(c) = self.driver.block_on(srv::tcp_root(inc.tcp)) {
+                if let Ok(c) = inc.rt.block_on(srv::tcp_root(inc.tcp)) {
                     run.client = Some(c);
                 }
             }
@@ -297,7 +297,7 @@ impl LogLens {
                     batch.push(json!([m, idc]));
                 }
                 let t_lo = IggyTimestamp::now().as_micros();
-                let r = self.driver.block_on(async {
+                let r = run.inc.as_ref().unwrap().rt.block_on(async {
                     run.client
                         .as_ref()
                         .unwrap()
@@ -319,7 +319,7 @@ impl LogLens {
             }
             "flush" => {
                 let fsync = step["fsync"].as_bool().unwrap_or(false);
-                let r = self.driver.block_on(async {
+                let r = run.inc.as_ref().unwrap().rt.block_on(async {
                     run.client
                         .as_ref()
                         .unwrap()
@@ -335,7 +335,7 @@ impl LogLens {
                 let h = run.inc.as_ref().unwrap().rt.spawn(async move {
                     system.read().await.persist_messages().await.map(|_| ())
                 });
-                let res = match self.driver.block_on(h) {
+                let res = match run.inc.as_ref().unwrap().rt.block_on(h) {
                     Ok(r) => res_of(&r),
                     Err(_) => "panic".to_string(),
                 };
@@ -348,7 +348,7 @@ impl LogLens {
                     let mut ex = MaintainMessagesExecutor;
                     ex.execute(&system, cmd).await;
                 });
-                let res = match self.driver.block_on(h) {
+                let res = match run.inc.as_ref().unwrap().rt.block_on(h) {
                     Ok(_) => "ok".to_string(),
                     Err(_) => "panic".to_string(),
                 };
@@ -362,7 +362,7 @@ impl LogLens {
             }
             "set_expiry" => {
                 let e = step["e"].as_u64().unwrap_or(0);
-                let r = self.driver.block_on(async {
+                let r = run.inc.as_ref().unwrap().rt.block_on(async {
                     run.client
                         .as_ref()
                         .unwrap()
@@ -382,9 +382,7 @@ impl LogLens {
                 json!({"ev":"set_expiry","e":e,"res":res})
             }
             "purge" => {
-                let r = self
-                    .driver
-                    .block_on(async { run.client.as_ref().unwrap().purge_topic(&sid, &tid).await });
+                let r = run.inc.as_ref().unwrap().rt.block_on(async { run.client.as_ref().unwrap().purge_topic(&sid, &tid).await });
                 let res = res_of(&r);
                 if res == "ok" {
                     for u in run.sent_upper.iter_mut() {
@@ -403,7 +401,7 @@ impl LogLens {
                 if mode == "flush" {
                     // "an explicit flush of every partition" followed by an abrupt end of the incarnation
                     for pp in 1..=run.scn.parts {
-                        let r = self.driver.block_on(async {
+                        let r = run.inc.as_ref().unwrap().rt.block_on(async {
                             run.client
                                 .as_ref()
                                 .unwrap()
@@ -432,7 +430,7 @@ impl LogLens {
             "store" => {
                 let who = step["who"].as_str().ok_or("store without who")?;
                 let o = step["o"].as_u64().unwrap_or(0);
-                let r = self.driver.block_on(async {
+                let r = run.inc.as_ref().unwrap().rt.block_on(async {
                     run.client
                         .as_ref()
                         .unwrap()
@@ -445,7 +443,7 @@ impl LogLens {
             }
             "del_offset" => {
                 let who = step["who"].as_str().ok_or("del_offset without who")?;
-                let r = self.driver.block_on(async {
+                let r = run.inc.as_ref().unwrap().rt.block_on(async {
                     run.client
                         .as_ref()
                         .unwrap()
@@ -460,7 +458,7 @@ impl LogLens {
                 let who = step["who"].as_str().ok_or("poll_next without who")?;
                 let n = step["n"].as_u64().unwrap_or(1) as u32;
                 let auto = step["auto"].as_bool().unwrap_or(false);
-                let r = self.driver.block_on(async {
+                let r = run.inc.as_ref().unwrap().rt.block_on(async {
                     run.client
                         .as_ref()
                         .unwrap()
@@ -479,7 +477,7 @@ impl LogLens {
                 let who = step["who"].as_str().ok_or("group op without who")?;
                 let g = group_num(who).ok_or("not a group")?;
                 let r = if op == "del_group" {
-                    self.driver.block_on(async {
+                    run.inc.as_ref().unwrap().rt.block_on(async {
                         run.client
                             .as_ref()
                             .unwrap()
@@ -487,7 +485,7 @@ impl LogLens {
                             .await
                     })
                 } else {
-                    self.driver.block_on(async {
+                    run.inc.as_ref().unwrap().rt.block_on(async {
                         run.client
                             .as_ref()
                             .unwrap()
@@ -510,7 +508,7 @@ impl LogLens {
         let scn = run.scn;
         let system = run.inc.as_ref().unwrap().system.clone();
         let parts = scn.parts;
-        let post = self.driver.block_on(async {
+        let post = run.inc.as_ref().unwrap().rt.block_on(async {
             let sys = system.read().await;
             let mut post = vec![];
             let stream = sys
@@ -561,7 +559,10 @@ impl LogLens {
     ) -> Result<PolledMessages, IggyError> {
         let sid = Identifier::named(STREAM).unwrap();
         let tid = Identifier::named(TOPIC).unwrap();
-        self.driver.block_on(async {
+        if std::env::var("VERIF_DEBUG").is_ok() {
+            eprintln!("[debug] poll p={p} who={who} strat={strat} n={n}");
+        }
+        run.inc.as_ref().unwrap().rt.block_on(async {
             run.client
                 .as_ref()
                 .unwrap()
@@ -590,6 +591,8 @@ impl LogLens {
             }
         };
         let ts_mono = read_ts.windows(2).all(|w| w[0].1 <= w[1].1);
+        // duplicates dropped by the server make the offered count a loose bound: sweep up to what is there (+2)
+        let upper = std::cmp::min(upper, std::cmp::max(cur.max(0) as u64, read_ts.len() as u64) + 2);
         // every (o, n)
         let mut polls = vec![];
         let pairs: Vec<(u64, u32)> = if scn.sweep == "full" || upper <= 6 {
@@ -663,7 +666,7 @@ impl LogLens {
         let mut next = vec![];
         for w in &scn.whos {
             let c = who_consumer(w);
-            let r = self.driver.block_on(async {
+            let r = run.inc.as_ref().unwrap().rt.block_on(async {
                 run.client
                     .as_ref()
                     .unwrap()
@@ -694,9 +697,10 @@ impl LogLens {
             }
         }
         // counters
-        let topic = self
-            .driver
-            .block_on(async { run.client.as_ref().unwrap().get_topic(&sid, &tid).await });
+        if std::env::var("VERIF_DEBUG").is_ok() {
+            eprintln!("[debug] get_topic");
+        }
+        let topic = run.inc.as_ref().unwrap().rt.block_on(async { run.client.as_ref().unwrap().get_topic(&sid, &tid).await });
         let (count, tcur, nsegs, tcount) = match topic {
             Ok(Some(t)) => {
                 let part = t.partitions.iter().find(|x| x.id == p);
